@@ -149,6 +149,12 @@ def run_case(ctx, i, rng):
         if not leafs:
             return
         lib = top.library
+        # identifiers of the kind flatten mints, numbered just beyond those already present - as in a netlist that was
+        # flattened in ANOTHER session (the numbering restarts with every process), written, read back and now extended
+        import re as _re
+        nums = [int(m_.group(1)) for x_ in list(top.cables) + list(top.children) if "EDIF.identifier" in x_
+                for m_ in [_re.fullmatch(r"(?:cable|instance)_sdn_flat_(\d+)", str(x_["EDIF.identifier"]))] if m_]
+        ahead = (max(nums) + 1) if nums else 0
         try:
             ext = lib.create_definition("EXT_%d" % i)
             ext["EDIF.identifier"] = "EXT_%d" % i
@@ -164,7 +170,7 @@ def run_case(ctx, i, rng):
                 kids.append(ch)
             for k_ in range(rng.randint(1, 3)):
                 cb = ext.create_cable("enet%d" % k_, wires=1)
-                cb["EDIF.identifier"] = "cable_sdn_flat_%d" % rng.randrange(0, 12)
+                cb["EDIF.identifier"] = "cable_sdn_flat_%d" % (ahead + rng.randrange(0, 12))
                 w_ = cb.wires[0]
                 if k_ == 0:
                     w_.connect_pin(pin_.pins[0])
@@ -172,6 +178,10 @@ def run_case(ctx, i, rng):
                     free = [op for op in ch.pins if op.wire is None]
                     if free and rng.random() < 0.6:
                         w_.connect_pin(rng.choice(free))
+            for k_, c_ in enumerate([c_ for c_ in top.cables if "EDIF.identifier" in c_][:2]):
+                if rng.random() < 0.5:
+                    c_["EDIF.identifier"] = "cable_sdn_flat_%d" % (ahead + 12 + k_ + rng.randrange(0, 20))
+                    ctx.count("top_level_identifiers_from_another_session")
             for k_ in range(rng.randint(1, 2)):
                 x_ = top.create_child("ext%d" % k_, reference=ext)
                 x_["EDIF.identifier"] = "ext%d" % k_
